@@ -105,6 +105,7 @@ func binarySession(run *ev.Run, unit int64, r *rand.Rand, dir, bin string, tlsd 
 	syscallMode := unit%2 == 1 // every other session dies AT a storage syscall instead of at a random instant
 	var logbuf bytes.Buffer
 	var lmu sync.Mutex
+	tail := func() string { lmu.Lock(); defer lmu.Unlock(); return tailStr(logbuf.String(), 1500) }
 	var curExited chan struct{}
 	killGroup := func() {
 		if cmd != nil && cmd.Process != nil {
@@ -118,6 +119,9 @@ func binarySession(run *ev.Run, unit int64, r *rand.Rand, dir, bin string, tlsd 
 		}
 	}
 	launch := func() (chan struct{}, error) {
+		lmu.Lock()
+		logbuf.Reset() // the output of this life only
+		lmu.Unlock()
 		api = freePort()
 		args := []string{}
 		if straceN > 0 {
@@ -155,6 +159,7 @@ func binarySession(run *ev.Run, unit int64, r *rand.Rand, dir, bin string, tlsd 
 		curExited = exited
 		return exited, nil
 	}
+	portRetries := 0
 	start := func() (*stubs.Backend, error) {
 		type accRes struct {
 			be  *stubs.Backend
@@ -172,7 +177,17 @@ func binarySession(run *ev.Run, unit int64, r *rand.Rand, dir, bin string, tlsd 
 				return a.be, a.err
 			case <-exited:
 				if straceN == 0 {
-					return nil, fmt.Errorf("the process exited before connecting to the bastion")
+					// the port picked for --listen can be taken by another process between picking and binding
+					// (many sessions and other checks run on this machine): that is the harness's race, not the binary's
+					if out := tail(); strings.Contains(out, "failed to listen on") && portRetries < 5 {
+						portRetries++
+						run.Count("binary_listen_port_collisions_retried")
+						if exited, err = launch(); err != nil {
+							return nil, err
+						}
+						continue
+					}
+					return nil, fmt.Errorf("the process exited before connecting to the bastion; its output ends: %s", tailStr(tail(), 600))
 				}
 				// an armed process can reach its N-th storage syscall while it recovers the journal of the
 				// previous kill at start-up: that is one more kill, not a failure to start
@@ -194,9 +209,46 @@ func binarySession(run *ev.Run, unit int64, r *rand.Rand, dir, bin string, tlsd 
 		b, _ := io.ReadAll(resp.Body)
 		return resp.StatusCode, b
 	}
-	tail := func() string { lmu.Lock(); defer lmu.Unlock(); return tailStr(logbuf.String(), 1500) }
 
+	// holdWriteLock: another connection (the previous instance of a rolling restart, a backup job) holds the
+	// database's write lock for longer than SQLite's busy timeout, then lets go; the returned channel is closed then.
+	holdWriteLock := func() (chan struct{}, bool) {
+		released := make(chan struct{})
+		other, oerr := sql.Open("sqlite3", db)
+		if oerr != nil {
+			return released, false
+		}
+		other.SetMaxOpenConns(1)
+		if _, oerr = other.Exec("BEGIN IMMEDIATE"); oerr != nil {
+			other.Close()
+			return released, false
+		}
+		run.Count("binary_starts_on_a_locked_database")
+		go func() {
+			time.Sleep(7 * time.Second)
+			_, _ = other.Exec("ROLLBACK")
+			other.Close()
+			close(released)
+		}()
+		return released, true
+	}
+	firstLock, firstHeld := make(chan struct{}), false
+	if unit%3 == 0 {
+		// the very first start meets a database file that already exists (created through the repository's own
+		// persistence layer, as an earlier version of the service would have left it) and is locked
+		if h, herr := sql.Open("sqlite3", db); herr == nil {
+			if psql.NewPersistence(h).Init() == nil {
+				h.Close()
+				firstLock, firstHeld = holdWriteLock()
+			} else {
+				h.Close()
+			}
+		}
+	}
 	be, err := start()
+	if firstHeld {
+		<-firstLock
+	}
 	if err != nil {
 		killGroup()
 		run.Violate("binary_does_not_connect", "the omniwitness binary did not start and connect to the bastion: "+err.Error(), unit, map[string]any{"output": tail()})
@@ -417,7 +469,15 @@ func binarySession(run *ev.Run, unit int64, r *rand.Rand, dir, bin string, tlsd 
 		if syscallMode && k+1 < kills {
 			straceN = 2 + r.IntN(40)
 		}
+		lockReleased, lockHeld := make(chan struct{}), false
+		if !syscallMode && k == 0 {
+			trace = append(trace, "restart while another connection holds the write lock for 7 s")
+			lockReleased, lockHeld = holdWriteLock()
+		}
 		be, err = start()
+		if lockHeld {
+			<-lockReleased // whatever is judged from here on happens after the other connection let go
+		}
 		if err != nil {
 			run.Violate("binary_does_not_restart", "after the kill the binary did not come back on the same database: "+err.Error(), unit, map[string]any{"trace": trace, "output": tail()})
 			return
